@@ -358,13 +358,16 @@ func UtxoValidateInsufficientCollateral(
 	if fee == nil {
 		fee = new(big.Int)
 	}
-	minCollateral := new(
+	// balance * 100 >= fee * collateralPercentage, compared exactly
+	required := new(
 		big.Int,
 	).Mul(fee, new(big.Int).SetUint64(uint64(tmpPparams.CollateralPercentage)))
-	minCollateral.Div(minCollateral, big.NewInt(100))
-	if totalCollateral.Cmp(minCollateral) >= 0 {
+	if new(big.Int).Mul(totalCollateral, big.NewInt(100)).Cmp(required) >= 0 {
 		return nil
 	}
+	// report the smallest sufficient amount (rounded up)
+	minCollateral := required.Add(required, big.NewInt(99))
+	minCollateral.Div(minCollateral, big.NewInt(100))
 	// Convert to uint64 for error struct (best effort)
 	var providedU, requiredU uint64
 	if totalCollateral.IsUint64() {
